@@ -19,17 +19,17 @@ def bools2' : List (List Bool) := [[false, false], [false, true], [true, false],
 def allSetups2' : List Setup :=
   [0, 1].flatMap fun leader => bools2'.flatMap fun outs => bools2'.map fun consts => ⟨2, leader, outs, consts⟩
 
-def statesOf (su : Setup) : List Net := let r := explore Cfg.pinned su 60 [] [initNet su]; r.1 ++ r.2
+def statesOf (su : Setup) : List Net := let r := explore Cfg.current su 60 [] [initNet su]; r.1 ++ r.2
 
 /-- per state: a terminal state is good (no error anywhere, every actor stopped, one result exactly where a destination
     was named, no permit held); any other state has a successor. -/
 def stateOk (su : Setup) (s : Net) : Bool :=
-  if terminal s then good su s else !(successors Cfg.pinned su s).isEmpty
+  if terminal s then good su s else !(successors Cfg.current su s).isEmpty
 
 def certificate (su : Setup) : Bool :=
   let all := statesOf su
   all.contains (initNet su)
-  && all.all (fun s => (successors Cfg.pinned su s).all (fun t => all.contains t))
+  && all.all (fun s => (successors Cfg.current su s).all (fun t => all.contains t))
   && all.all (stateOk su)
 
 theorem C13_n2_certificates : allSetups2'.all certificate = true := by decide +kernel
@@ -37,7 +37,7 @@ theorem C13_n2_certificates : allSetups2'.all certificate = true := by decide +k
 /-- **C13, two parties, every setup, every interleaving:** every state reachable by delivering in-flight commands in any
     order is either a good final state or has a next step. -/
 theorem C13_n2_reachable_ok (su : Setup) (hsu : su ∈ allSetups2') (s : Net)
-    (h : Reach (successors Cfg.pinned su) (initNet su) s) : stateOk su s = true := by
+    (h : Reach (successors Cfg.current su) (initNet su) s) : stateOk su s = true := by
   have hc : certificate su = true := List.all_eq_true.mp C13_n2_certificates su hsu
   simp only [certificate, Bool.and_eq_true, List.all_eq_true, List.contains_iff_mem] at hc
   obtain ⟨⟨hinit, hclosed⟩, hok⟩ := hc
